@@ -340,6 +340,13 @@ func drawTime(d D, hint *uint32, kind int) uint32 {
 		base = *hint
 	}
 	var v uint32
+	if kind == fitmodel.KindTimeLocal && d.Int(0, 2, "ltpat") == 0 {
+		// local times at offset exactly 0 from the reference and at whole
+		// and half hours from it, so that one file holds several local
+		// times with equal, zero and different zone offsets
+		v = base + uint32([]int{0, 0, 3600, -3600, 7200, 19800, -12600, 1, -1}[d.Int(0, 8, "ltoff")])
+		return v
+	}
 	switch d.Int(0, 9, "tpat") {
 	case 0:
 		v = 0xFFFFFFFF
